@@ -42,6 +42,7 @@ impl C11 {
     pub fn judge(f: &[u8], label: &str, r: &mut Rng, ctx: &mut Ctx, widen: bool) -> bool {
         ctx.item_bytes(label, f);
         let case = json!({"label": label});
+        ctx.phase("nonverdict: expansion to find the boundary (totality is C01's verdict)");
         let exp = match cur::expand(f) {
             Out::Ok(v) => v,
             _ => {
@@ -50,6 +51,7 @@ impl C11 {
             }
         };
         let size = exp.len() - if widen { 1 } else { 0 };
+        ctx.phase("verdict: zstd wrappers");
         let c = match cur::zstd_compress(f) {
             Out::Ok(c) => c,
             other => {
